@@ -152,6 +152,9 @@ def pcs(rng, AW, quick):
 
 
 NAMES = ['loop', 'L1', 'zp_ptr', 'Table', 'io.port', '_x', 'dup', 'Start2', 'y1', 'xx']
+# identifier-like names that are ALSO numbers in some default radix (hex words, underscore digits): a label
+# must win over the number reading (seeded change C08-4 was missed until these were added)
+NUMLIKE = ['add', 'dec', 'bed', 'fade', 'c0de', 'f00', 'be_ef', 'Ace', 'b1', 'DEAD', 'd', 'ab', 'e2', 'FF', 'b_0']
 
 
 def label_tables(rng, dev, pc, op, b1, b2):
@@ -160,7 +163,7 @@ def label_tables(rng, dev, pc, op, b1, b2):
     word = b1 + b2 * BM
     targ = (pc + 2 + (b1 if b1 < BM // 2 else b1 - BM)) % AM
     vals = [b1, word, targ, (b1 + 1) % BM, (word + 1) % AM, (targ - 1) % AM, b1, word, targ, pc]
-    names = NAMES[:]
+    names = NAMES + NUMLIKE
     rng.shuffle(names)
     k = rng.randrange(1, 7)
     idx = rng.sample(range(len(vals)), k)
